@@ -25,7 +25,7 @@ fi
 [ "$1" = "build" ] && exit 0
 if [ "$1" = "fuzz-replay" ]; then exec ./target/release/rmv fuzz-once "$2" "$(realpath "$3")"; fi
 if [ "$1" = "replay" ]; then
-    if grep -q '"property": *"C15"' "$2"; then
+    if grep -q '"property": *"C15"' "$2" || grep -q '"build": *"checked"' "$2"; then
         RMV_BUILD=checked ./target/checked/rmv "$@"; rc1=$?
         ./target/release/rmv "$@"; rc2=$?
         [ $rc1 -eq 1 ] || [ $rc2 -eq 1 ] && exit 1
